@@ -1336,10 +1336,12 @@ func (s *swamp) IncrementUint8(key string, i uint8, condition *IncrementUInt8Con
 	// create new value
 	treasureObj.SetContentUint8(guardID, contentInt)
 	// save the treasure
+	// the response metadata is read while the guard is still held: with write interval 0 Save releases it
+	metadataResponse = s.createMetaForIncrementResponse(treasureObj)
 	treasureObj.Save(guardID)
 
 	// visszaadjuk az új értéket és hogy incrementálva lett-e
-	return contentInt, true, s.createMetaForIncrementResponse(treasureObj), nil
+	return contentInt, true, metadataResponse, nil
 
 }
 
@@ -1403,11 +1405,13 @@ func (s *swamp) IncrementUint16(key string, i uint16, condition *IncrementUInt16
 	contentInt += i
 	// beállítjuk az új értéket
 	treasureObj.SetContentUint16(guardID, contentInt)
+	// the response metadata is read while the guard is still held: with write interval 0 Save releases it
+	metadataResponse = s.createMetaForIncrementResponse(treasureObj)
 	// elmentjük a treasure-t
 	treasureObj.Save(guardID)
 
 	// visszaadjuk az új értéket és hogy incrementálva lett-e
-	return contentInt, true, s.createMetaForIncrementResponse(treasureObj), nil
+	return contentInt, true, metadataResponse, nil
 
 }
 func (s *swamp) IncrementUint32(key string, i uint32, condition *IncrementUInt32Condition, metadataRequestIfNotExist *IncrementMetadataRequest, metadataRequestIfExist *IncrementMetadataRequest) (newValue uint32, incremented bool, metadataResponse *IncrementMetadataResponse, err error) {
@@ -1470,11 +1474,13 @@ func (s *swamp) IncrementUint32(key string, i uint32, condition *IncrementUInt32
 	contentInt += i
 	// beállítjuk az új értéket
 	treasureObj.SetContentUint32(guardID, contentInt)
+	// the response metadata is read while the guard is still held: with write interval 0 Save releases it
+	metadataResponse = s.createMetaForIncrementResponse(treasureObj)
 	// elmentjük a treasure-t
 	treasureObj.Save(guardID)
 
 	// visszaadjuk az új értéket és hogy incrementálva lett-e
-	return contentInt, true, s.createMetaForIncrementResponse(treasureObj), nil
+	return contentInt, true, metadataResponse, nil
 
 }
 func (s *swamp) IncrementUint64(key string, i uint64, condition *IncrementUInt64Condition, metadataRequestIfNotExist *IncrementMetadataRequest, metadataRequestIfExist *IncrementMetadataRequest) (newValue uint64, incremented bool, metadataResponse *IncrementMetadataResponse, err error) {
@@ -1536,11 +1542,13 @@ func (s *swamp) IncrementUint64(key string, i uint64, condition *IncrementUInt64
 	contentInt += i
 	// beállítjuk az új értéket
 	treasureObj.SetContentUint64(guardID, contentInt)
+	// the response metadata is read while the guard is still held: with write interval 0 Save releases it
+	metadataResponse = s.createMetaForIncrementResponse(treasureObj)
 	// elmentjük a treasure-t
 	treasureObj.Save(guardID)
 
 	// visszaadjuk az új értéket és hogy incrementálva lett-e
-	return contentInt, true, s.createMetaForIncrementResponse(treasureObj), nil
+	return contentInt, true, metadataResponse, nil
 }
 func (s *swamp) IncrementInt8(key string, i int8, condition *IncrementInt8Condition, metadataRequestIfNotExist *IncrementMetadataRequest, metadataRequestIfExist *IncrementMetadataRequest) (newValue int8, incremented bool, metadataResponse *IncrementMetadataResponse, err error) {
 
@@ -1602,11 +1610,13 @@ func (s *swamp) IncrementInt8(key string, i int8, condition *IncrementInt8Condit
 	contentInt += i
 	// beállítjuk az új értéket
 	treasureObj.SetContentInt8(guardID, contentInt)
+	// the response metadata is read while the guard is still held: with write interval 0 Save releases it
+	metadataResponse = s.createMetaForIncrementResponse(treasureObj)
 	// elmentjük a treasure-t
 	treasureObj.Save(guardID)
 
 	// visszaadjuk az új értéket és hogy incrementálva lett-e
-	return contentInt, true, s.createMetaForIncrementResponse(treasureObj), nil
+	return contentInt, true, metadataResponse, nil
 
 }
 func (s *swamp) IncrementInt16(key string, i int16, condition *IncrementInt16Condition, metadataRequestIfNotExist *IncrementMetadataRequest, metadataRequestIfExist *IncrementMetadataRequest) (newValue int16, incremented bool, metadataResponse *IncrementMetadataResponse, err error) {
@@ -1668,11 +1678,13 @@ func (s *swamp) IncrementInt16(key string, i int16, condition *IncrementInt16Con
 	contentInt += i
 	// beállítjuk az új értéket
 	treasureObj.SetContentInt16(guardID, contentInt)
+	// the response metadata is read while the guard is still held: with write interval 0 Save releases it
+	metadataResponse = s.createMetaForIncrementResponse(treasureObj)
 	// elmentjük a treasure-t
 	treasureObj.Save(guardID)
 
 	// visszaadjuk az új értéket és hogy incrementálva lett-e
-	return contentInt, true, s.createMetaForIncrementResponse(treasureObj), nil
+	return contentInt, true, metadataResponse, nil
 }
 func (s *swamp) IncrementInt32(key string, i int32, condition *IncrementInt32Condition, metadataRequestIfNotExist *IncrementMetadataRequest, metadataRequestIfExist *IncrementMetadataRequest) (newValue int32, incremented bool, metadataResponse *IncrementMetadataResponse, err error) {
 
@@ -1734,11 +1746,13 @@ func (s *swamp) IncrementInt32(key string, i int32, condition *IncrementInt32Con
 	contentInt += i
 	// beállítjuk az új értéket
 	treasureObj.SetContentInt32(guardID, contentInt)
+	// the response metadata is read while the guard is still held: with write interval 0 Save releases it
+	metadataResponse = s.createMetaForIncrementResponse(treasureObj)
 	// elmentjük a treasure-t
 	treasureObj.Save(guardID)
 
 	// visszaadjuk az új értéket és hogy incrementálva lett-e
-	return contentInt, true, s.createMetaForIncrementResponse(treasureObj), nil
+	return contentInt, true, metadataResponse, nil
 }
 
 func (s *swamp) IncrementInt64(key string, i int64, condition *IncrementInt64Condition, metadataRequestIfNotExist *IncrementMetadataRequest, metadataRequestIfExist *IncrementMetadataRequest) (newValue int64, incremented bool, metadataResponse *IncrementMetadataResponse, err error) {
@@ -1810,6 +1824,8 @@ func (s *swamp) IncrementInt64(key string, i int64, condition *IncrementInt64Con
 	if verifhook.Enabled {
 		verifhook.Point("inc.written", key)
 	}
+	// the response metadata is read while the guard is still held: with write interval 0 Save releases it
+	metadataResponse = s.createMetaForIncrementResponse(treasureObj)
 	// elmentjük a treasure-t
 	treasureObj.Save(guardID)
 	if verifhook.Enabled {
@@ -1817,7 +1833,7 @@ func (s *swamp) IncrementInt64(key string, i int64, condition *IncrementInt64Con
 	}
 
 	// visszaadjuk az új értéket és hogy incrementálva lett-e
-	return contentInt, true, s.createMetaForIncrementResponse(treasureObj), nil
+	return contentInt, true, metadataResponse, nil
 
 }
 
@@ -1893,10 +1909,12 @@ func (s *swamp) IncrementFloat32(key string, f float32, condition *IncrementFloa
 	// set the new value
 	treasureObj.SetContentFloat32(guardID, contentFloat)
 	// save the treasure object
+	// the response metadata is read while the guard is still held: with write interval 0 Save releases it
+	metadataResponse = s.createMetaForIncrementResponse(treasureObj)
 	treasureObj.Save(guardID)
 
 	// return the new value and whether it was incremented
-	return contentFloat, true, s.createMetaForIncrementResponse(treasureObj), nil
+	return contentFloat, true, metadataResponse, nil
 
 }
 
@@ -1962,10 +1980,12 @@ func (s *swamp) IncrementFloat64(key string, f float64, condition *IncrementFloa
 	// set the new value
 	treasureObj.SetContentFloat64(guardID, contentFloat)
 	// save the treasure object
+	// the response metadata is read while the guard is still held: with write interval 0 Save releases it
+	metadataResponse = s.createMetaForIncrementResponse(treasureObj)
 	treasureObj.Save(guardID)
 
 	// return the new value and whether it was incremented
-	return contentFloat, true, s.createMetaForIncrementResponse(treasureObj), nil
+	return contentFloat, true, metadataResponse, nil
 }
 
 func (s *swamp) GetBeacon(beaconType BeaconType, order BeaconOrder) beacon.Beacon {
